@@ -40,8 +40,8 @@ RESP_KINDS = ["BindResp-ok", "BindResp-sasl", "BindResp-bad", "Entry", "Ref", "D
 
 
 def base_kind(name: str) -> str:
-    return {"Done-paged": "Done", "ExtResp-named": "ExtResp", "Entry-ctl": "Entry"}.get(name, name)
-REQ_KINDS = ["BindReq", "SearchReq", "ExtReq", "Unbind"]
+    return {"Done-paged": "Done", "ExtResp-named": "ExtResp", "Entry-ctl": "Entry", "ExtResp-big": "ExtResp", "SearchReq-lim1": "SearchReq", "ExtReq-big": "ExtReq"}.get(name, name)
+REQ_KINDS = ["BindReq", "SearchReq", "ExtReq", "Unbind", "SearchReq-lim1"]
 
 
 def make_msg(kind: str, i: int) -> t.Any:
@@ -74,6 +74,12 @@ def make_msg(kind: str, i: int) -> t.Any:
         return L.SearchRequest(i, [], "", L.SearchScope.BASE, L.DereferencingPolicy.NEVER, 0, 0, False, L.FilterPresent("a"), [])
     if kind == "ExtReq":
         return L.ExtendedRequest(i, [], "1.2", None)
+    if kind == "SearchReq-lim1":  # a search that asks for at most one entry: how many entries the server sends is its application's business
+        return L.SearchRequest(i, [L.PagedResultControl(False, 1, b"")], "dc=x", L.SearchScope.ONE_LEVEL, L.DereferencingPolicy.NEVER, 1, 1, False, L.FilterPresent("a"), ["cn"])
+    if kind == "ExtReq-big":
+        return L.ExtendedRequest(i, [], "1.2", b"v" * 1500)
+    if kind == "ExtResp-big":
+        return L.ExtendedResponse(i, [], _res(), None, b"w" * 1500)
     if kind == "Unbind":
         return L.UnbindRequest(i, [])
     raise KeyError(kind)
@@ -104,6 +110,8 @@ Event = t.Tuple[str, str, int]  # (kind, name, id)
 #                   that fails while encoding): whatever it raises, it must leave no trace
 #         recv      one whole PDU            recv2   the same PDU cut in two receive() calls
 #         recvpeer  the same PDU as a conforming peer may encode it: every length in the 5-octet long form
+#         recv3     a 1.5 KB PDU followed by the named short PDU, delivered in three pieces: up to 10 octets before
+#                   the boundary, up to 1 octet after it, the rest
 #         recvpair  two PDUs "A+B" (same id, or "A+B/next" with ids i and i+1) in ONE receive() call
 #         garbage   an undecodable delivery
 
@@ -156,6 +164,7 @@ def events(role: str, kmax: int) -> t.List[Event]:
             ev += [("recv2", n, aid(i)) for n in RESP_KINDS]
         ev += [("recv2", n, 0) for n in ("Unbind", "Notice")]
         ev += [("recvpeer", n, aid(1)) for n in RESP_KINDS + ["Unbind"]]
+        ev += [("recv3", n, aid(1)) for n in ("Done", "Notice", "Entry", "BindResp-ok")]
         for a in PAIR_RESP:
             for b in PAIR_RESP:
                 ev.append(("recvpair", f"{a}+{b}", aid(1)))
@@ -174,6 +183,7 @@ def events(role: str, kmax: int) -> t.List[Event]:
         for i in (1, 2):
             ev += [("recv2", n, aid(i)) for n in REQ_KINDS]
         ev += [("recvpeer", n, aid(1)) for n in REQ_KINDS + ["Notice"]]
+        ev += [("recv3", n, aid(1)) for n in ("Unbind", "BindReq", "SearchReq")]
         for a in REQ_KINDS:
             for b in REQ_KINDS:
                 ev.append(("recvpair", f"{a}+{b}", aid(1)))
@@ -200,6 +210,9 @@ def event_messages(ev: Event) -> t.List[t.Tuple[str, int]]:
     kind, name, i = ev
     if kind in ("recv", "recv2", "recvpeer"):
         return [(name, i)]
+    if kind == "recv3":
+        first = "ExtReq-big" if name in REQ_KINDS else "ExtResp-big"
+        return [(first, i), (name, i + 1)]
     if kind == "recvpair":
         nxt = name.endswith("/next")
         a, b = name.replace("/next", "").split("+")
@@ -226,6 +239,13 @@ def apply_event(role: str, s: t.Any, ev: Event) -> t.Any:
         return first + s.receive(b[cut:])
     if kind == "recvpeer":
         return s.receive(_peer_bytes(name, i))
+    if kind == "recv3":
+        (n1, i1), (n2, i2) = event_messages(ev)
+        a, b = make_msg(n1, i1).pack(OPT), make_msg(n2, i2).pack(OPT)
+        data = a + b
+        out = s.receive(data[: len(a) - 10])
+        out = out + s.receive(data[len(a) - 10 : len(a) + 1])
+        return out + s.receive(data[len(a) + 1 :])
     if kind == "recvpair":
         return s.receive(b"".join(make_msg(n, j).pack(OPT) for n, j in event_messages(ev)))
     return s.receive(GARBAGE)
@@ -311,6 +331,7 @@ def _client_expect(inprog: t.Dict[int, str], msgs: t.List[t.Tuple[str, int]]) ->
 def _server_expect(inprog: t.Dict[int, str], msgs: t.List[t.Tuple[str, int]]) -> t.Tuple[t.Optional[bool], t.Dict[int, str], str]:
     g = dict(inprog)
     for name, i in msgs:
+        name = base_kind(name)
         if name in RESP_KINDS:
             return False, g, f"{name} is a response-type message"
         if name == "Unbind":
@@ -337,7 +358,7 @@ def monitors(role: str, g: Ghost, ev: Event, rec: Rec, viol: t.List[t.Tuple[str,
 
     is_call = kind in ("call", "callbad")
     is_recv = not is_call
-    single = kind in ("recv", "recv2", "recvpeer")  # one PDU: every lifecycle clause applies
+    single = kind in ("recv", "recv2", "recvpeer")  # one PDU: every lifecycle clause applies (recvpair / recv3 carry two)
     msgs = event_messages(ev)
     # (g) only the library's error types (a callbad raises whatever the application's control raised)
     if exc is not None:
@@ -368,7 +389,7 @@ def monitors(role: str, g: Ghost, ev: Event, rec: Rec, viol: t.List[t.Tuple[str,
             flag("C08", "h-refused-response-opens-fresh-server", f"server {name}({i}) was refused but state went BEFORE_OPEN -> OPENED")
         else:
             flag("C08", f"h-refused-call-changed-state:{role}:{kind}:{name}:{pre.name}->{post.name}", f"{role} {name}({i}) failed ({type(exc).__name__}) but state went {pre.name} -> {post.name}")
-    is_bindreq = accepted and ((role == "client" and kind == "call" and name.startswith("bind_")) or (role == "server" and single and name == "BindReq"))
+    is_bindreq = accepted and ((role == "client" and kind == "call" and name.startswith("bind_")) or (role == "server" and single and base_kind(name) == "BindReq"))
     is_final_bindresp = accepted and (
         (role == "server" and kind == "call" and name in ("bind_response-ok", "bind_response-bad"))
         or (role == "client" and single and name in ("BindResp-ok", "BindResp-bad"))
@@ -480,6 +501,7 @@ def monitors(role: str, g: Ghost, ev: Event, rec: Rec, viol: t.List[t.Tuple[str,
                 flag("C08", key, f"server accepted {label} although {why}")
             if accepted:
                 for n, j in msgs:
+                    n = base_kind(n)
                     if n in ("BindReq", "SearchReq", "ExtReq"):
                         inprog[j] = {"BindReq": "bind", "SearchReq": "search", "ExtReq": "ext"}[n]
         if kind == "call" and name != "unbind":
